@@ -14,7 +14,7 @@ func init() {
 	register("C02", checkC02)
 	describe("C02", Meta{
 		Technique: "index-space (units-of-measure) inference over the type-checked AST: every int used to index the bond tables, stored into Links or compared is given the index space of its definition (range key/value, len, lookup, Map_to-guarded Res_id/Ext_id) and must agree with the space the container is declared to use",
-		Claim:     "Decides one structural clause of C02: both back-ends (VM.Step and the Verilog top-level generator) and every helper that walks Links / Internal_inputs / Internal_outputs use internal-input indices, internal-output indices, external-port indices and processor indices only in the tables of the matching space, and a Map_to case names an endpoint kind that can occur in the list being walked. A swapped Links index or a transfer guarded by the wrong endpoint kind is reported. LINKWALK: for every per-endpoint table the VM fills while ranging over Links, at least one walk moves every link (conditions on the link only), as the generated top level does with one assign per bond. Stream equality HDL vs. simulator, timing and the AND of received lines are not decided.",
+		Claim:     "Decides one structural clause of C02: both back-ends (VM.Step and the Verilog top-level generator) and every helper that walks Links / Internal_inputs / Internal_outputs use internal-input indices, internal-output indices, external-port indices and processor indices only in the tables of the matching space, and a Map_to case names an endpoint kind that can occur in the list being walked. A swapped Links index or a transfer guarded by the wrong endpoint kind is reported. FANIN: a walk that enumerates the inputs bonded to an output (`linked == o`) treats every such input alike (no filter on the machine's content), in the HDL generator as in the simulator — the structural form of 'received is the conjunction over ALL consumers'. LINKWALK: for every per-endpoint table the VM fills while ranging over Links, at least one walk moves every link (conditions on the link only), as the generated top level does with one assign per bond. Stream equality HDL vs. simulator, timing and the AND of received lines are not decided.",
 		Note:      "Index spaces are declared per struct field in the checker (read off the data model's own comments); locals with two different definitions are ignored (no obligation). Flow-insensitive per function.",
 		DesignRef: "DESIGN.md §2 C02",
 	})
@@ -36,6 +36,159 @@ func checkC02(r *core.Run) {
 		return !e.mentionsFieldOf(pk, fd, "pkg/bondmachine.SimDrive.", "pkg/bondmachine.SimReport.") && !e.storesTopology(pk, fd)
 	})
 	c02LinkWalk(r, prog)
+	c02FanIn(r, prog)
+}
+
+// c02FanIn (C02/FANIN): "an output's received line is the conjunction of the received lines of ALL
+// inputs bonded to it". A consumers-of walk is a `for i, linked := range Links` whose body tests
+// `linked == o` with o an internal-output position (range key over Internal_outputs, or an int
+// parameter). Whatever such a walk does for a consumer (count it, declare its wire, add its term to
+// the AND) it must do for every consumer: besides the `linked == o` test, the governing conditions
+// may not read the machine's content. A filter on the consumer's kind drops terms from the
+// conjunction (and from the count that chooses between the 1-consumer and n-consumer forms).
+func c02FanIn(r *core.Run, prog *core.Program) {
+	pk := prog.Pkg("pkg/bondmachine")
+	if pk == nil {
+		return
+	}
+	info := pk.TypesInfo
+	n := 0
+	core.FuncDecls(pk, func(_ *ast.File, fd *ast.FuncDecl) {
+		// output-position variables: range keys over Internal_outputs, int parameters
+		outPos := map[types.Object]bool{}
+		for _, p := range fd.Type.Params.List {
+			for _, nm := range p.Names {
+				if o := info.ObjectOf(nm); o != nil {
+					if b, ok := o.Type().Underlying().(*types.Basic); ok && b.Kind() == types.Int {
+						outPos[o] = true
+					}
+				}
+			}
+		}
+		ast.Inspect(fd.Body, func(k ast.Node) bool {
+			if rs, ok := k.(*ast.RangeStmt); ok {
+				if f := core.FieldOf(info, rs.X); f != nil && core.IsField(f, "pkg/bondmachine", "Internal_outputs") {
+					if id, ok := rs.Key.(*ast.Ident); ok && id.Name != "_" {
+						outPos[info.ObjectOf(id)] = true
+					}
+				}
+			}
+			return true
+		})
+		wn := 0
+		ast.Inspect(fd.Body, func(k ast.Node) bool {
+			rs, ok := k.(*ast.RangeStmt)
+			if !ok {
+				return true
+			}
+			f := core.FieldOf(info, rs.X)
+			if f == nil || !core.IsField(f, "pkg/bondmachine", "Links") {
+				return true
+			}
+			lid, ok := rs.Value.(*ast.Ident)
+			if !ok || lid.Name == "_" {
+				return true
+			}
+			lobj := info.ObjectOf(lid)
+			isFanTest := func(e ast.Expr) bool {
+				be, ok := ast.Unparen(e).(*ast.BinaryExpr)
+				if !ok || be.Op != token.EQL {
+					return false
+				}
+				for _, pr := range [][2]ast.Expr{{be.X, be.Y}, {be.Y, be.X}} {
+					a, ok1 := ast.Unparen(pr[0]).(*ast.Ident)
+					b, ok2 := ast.Unparen(pr[1]).(*ast.Ident)
+					if ok1 && ok2 && info.ObjectOf(a) == lobj && outPos[info.ObjectOf(b)] {
+						return true
+					}
+				}
+				return false
+			}
+			// conjuncts of a condition
+			var conj func(e ast.Expr) []ast.Expr
+			conj = func(e ast.Expr) []ast.Expr {
+				if be, ok := ast.Unparen(e).(*ast.BinaryExpr); ok && be.Op == token.LAND {
+					return append(conj(be.X), conj(be.Y)...)
+				}
+				return []ast.Expr{e}
+			}
+			content := func(e ast.Expr) string {
+				bad := ""
+				ast.Inspect(e, func(m ast.Node) bool {
+					switch x := m.(type) {
+					case *ast.SelectorExpr:
+						if fv := core.FieldOf(info, x); fv != nil && bad == "" {
+							bad = types.ExprString(x)
+						}
+					case *ast.CallExpr:
+						if id, ok := x.Fun.(*ast.Ident); ok && (id.Name == "len" || id.Name == "int") {
+							return true
+						}
+						if tv, ok := info.Types[x.Fun]; ok && tv.IsType() {
+							return true
+						}
+						if bad == "" {
+							bad = types.ExprString(x)
+						}
+					}
+					return true
+				})
+				return bad
+			}
+			// is this a consumers-of walk? find ifs in the body (any depth) with a fan test conjunct
+			var visit func(list []ast.Stmt, outer []ast.Expr)
+			visit = func(list []ast.Stmt, outer []ast.Expr) {
+				for _, st := range list {
+					ifs, ok := st.(*ast.IfStmt)
+					if !ok {
+						continue
+					}
+					cs := conj(ifs.Cond)
+					hasFan := false
+					for _, c := range cs {
+						if isFanTest(c) {
+							hasFan = true
+						}
+					}
+					all := append(append([]ast.Expr{}, outer...), cs...)
+					if hasFan {
+						wn++
+						n++
+						inst := fmt.Sprintf("C02/FANIN:%s:walk%d", core.FuncKey(pk, fd), wn)
+						bad := ""
+						for _, c := range all {
+							if isFanTest(c) {
+								continue
+							}
+							if b := content(c); b != "" && bad == "" {
+								bad = b
+							}
+						}
+						// nested conditions inside the consumer branch that wrap everything
+						if bad == "" && len(ifs.Body.List) == 1 {
+							if in, ok := ifs.Body.List[0].(*ast.IfStmt); ok && in.Else == nil {
+								for _, c := range conj(in.Cond) {
+									if b := content(c); b != "" && bad == "" {
+										bad = b
+									}
+								}
+							}
+						}
+						if bad == "" {
+							r.OK("C02/FANIN", inst, prog.Pos(ifs.Pos()), "the walk treats every input bonded to the output alike")
+						} else {
+							r.Violation("C02/FANIN", inst, prog.Pos(ifs.Pos()), fmt.Sprintf("%s enumerates the inputs bonded to an output but keeps only those for which a condition on the machine's content holds (%s): the received line of a fanned-out output is then the conjunction of only some of its consumers (and the consumer count that selects the 1-input / n-input form is off), so the producer can be acknowledged before every consumer has taken the value; the simulator ANDs all of them", core.FuncKey(pk, fd), bad))
+						}
+						continue
+					}
+					visit(ifs.Body.List, all)
+				}
+			}
+			visit(rs.Body.List, nil)
+			return true
+		})
+	})
+	r.Count("consumer_walks", n)
 }
 
 // c02LinkWalk (C02/LINKWALK): the simulator moves data, valid and received along EVERY bond. In each
